@@ -5,6 +5,7 @@
 package c04
 
 import (
+	"os"
 	"bytes"
 	"errors"
 	"fmt"
@@ -311,6 +312,10 @@ func (p *Prop) Generate(base uint64, index int, env *sim.Env) *sim.Case {
 			}
 			if op == "rget" && faulty && r.Pct(50) {
 				st.Fail = 1 + r.Intn(3)
+			}
+			if faulty && r.Pct(6) {
+				// a transient storage fault: the file reads as empty during this one lookup
+				st.Op = "glitch"
 			}
 			h = append(h, st)
 		}
@@ -827,6 +832,30 @@ func (p *Prop) Execute(c *sim.Case, env *sim.Env) *sim.Result {
 						check(got, err, true)
 					} else {
 						check(got, err, true)
+					}
+				case "glitch":
+					// the file is empty while this lookup runs, and whole again afterwards (same
+					// inode, the reader keeps its descriptor): the lookup may fail, it must not
+					// return another value, and nothing it leaves behind may change later answers
+					whole, rerr := os.ReadFile(path)
+					if rerr != nil {
+						break
+					}
+					os.Truncate(path, 0)
+					oc := sim.Guard(t, 50_000_000, func() error { got, err = rd.GetObject(st.Num); return nil })
+					if f, werr := os.OpenFile(path, os.O_WRONLY, 0); werr == nil {
+						f.Write(whole)
+						f.Close()
+					}
+					res.Count("fault.file-empty-during-lookup.injected", 1)
+					if oc.Bad() {
+						fail("glitch:"+oc.Kind, where+": "+oc.Class()+" "+oc.Msg)
+						break
+					}
+					if err != nil {
+						res.Count("fault.file-empty-during-lookup.fired", 1)
+					} else {
+						check(got, err, false)
 					}
 				case "clearcache":
 					rd.ClearCache()
